@@ -133,13 +133,17 @@ def check_put_merges(R, repo):
           'put must merge a mapping into an existing dict entry recursively, key by key: child scopes hold references to their sub-dicts, and replacing or shallow-updating one leaves them stale')
 
 
-def _filter_leaves(e):
-  """Leaves of a nest of intersect_filters(...) calls, or None."""
+def _filter_leaves(e, fnode=None, depth=0):
+  """Leaves of a nest of intersect_filters(...) calls (a local bound once to such a nest counts as the nest), or None."""
   if isinstance(e, ast.Call) and astu.call_name(e) == 'intersect_filters' and len(e.args) == 2:
-    a, b = _filter_leaves(e.args[0]), _filter_leaves(e.args[1])
+    a, b = _filter_leaves(e.args[0], fnode, depth), _filter_leaves(e.args[1], fnode, depth)
     return None if a is None or b is None else a + b
   if isinstance(e, ast.Call):
     return None
+  if isinstance(e, ast.Name) and fnode is not None and depth < 4:
+    d = types.single_def(fnode, e.id)
+    if isinstance(d, ast.Call) and astu.call_name(d) == 'intersect_filters':
+      return _filter_leaves(d, fnode, depth + 1)
   return [astu.src(e)]
 
 
@@ -183,7 +187,7 @@ def check_inner_mutability(R, repo):
             R.fail(key_of(sf, 'scope_mutable = intersect(scope.mutable, out filters, mutable_filter)'), (sf, t.stmt),
                    'the intersection with `%s` is applied only `if %s:` — but a filter that is False means "nothing is mutable", not "no filter": with %s=False (e.g. the cond function of nn.while_loop) the inner scope stays writable' % (t.ast.id, t.ast.id, t.ast.id))
             return
-  leaves = _filter_leaves(d) if d is not None else None
+  leaves = _filter_leaves(d, sf.node) if d is not None else None
   widened = d is not None and any(isinstance(x, ast.Call) and astu.call_tail(x) == 'union_filters' for x in ast.walk(d))
   R.judge(leaves is not None or widened, leaves is not None and sorted(leaves) == ['mutable', 'mutable_filter', 'scope.mutable'], key_of(sf, 'scope_mutable = intersect(scope.mutable, out filters, mutable_filter)'), sf,
           'the inner scope\'s mutability must be the intersection of the outer scope\'s mutability, the union of the out filters and mutable_filter (got `%s`): anything wider makes non-lifted collections writable' % astu.short(d))
